@@ -7,10 +7,11 @@ only answers with names of its own scope before the position, methods skip class
 "header belongs to the outer scope" rule agree."""
 import ast
 import os
+import itertools
 
 from ..core import AnchorError, call_name, norm, short, own_nodes, kwarg, FUNC_TYPES
 from ..cfg import cfg_of
-from ..lib import calls_in, stmts_in, gate, must_pass, node_has, params, dominating_facts
+from ..lib import calls_in, stmts_in, gate, must_pass, node_has, params, dominating_facts, xnorm, atom_key, decide
 
 CTX = 'jedi.inference.context'
 FIL = 'jedi.inference.filters'
@@ -230,27 +231,52 @@ def rule_g(repo, chk):
                         'with the position of the scope\'s `:` and exempt exactly the parameter name itself')
     pc = repo.find(CTX, 'TreeContextMixin.create_context')
     gp = repo.find('jedi.parser_utils', 'get_parent_scope')
-    a = [x for x in own_nodes(pc) if isinstance(x, ast.Compare) and 'colon.start_pos' in norm(x)]
-    ok = len(a) == 1 and norm(a[0]) == 'node.start_pos < colon.start_pos'
-    chk.ob('C03.g', ok, pc, 'create_context: a node before the `:` of a def/class is in the header')
-    col = [s for s in stmts_in(pc, ast.Assign) if norm(s.targets[0]) == 'colon']
-    ok = len(col) == 1 and norm(col[0].value) == "scope_node.children[scope_node.children.index(':')]"
-    chk.ob('C03.g', ok, pc, 'create_context locates the header\'s own `:` (first `:` child, not the last child)')
-    ex = [x for x in own_nodes(pc) if isinstance(x, ast.UnaryOp) and isinstance(x.op, ast.Not) and 'param' in norm(x)]
-    ok = len(ex) == 1 and norm(ex[0].operand) == "parent.type == 'param' and parent.name == node"
-    chk.ob('C03.g', ok, pc, 'create_context exempts exactly the parameter\'s own name (`parent.type == \'param\' and parent.name == node`)',
-           str([norm(x) for x in ex]))
-    b = [x for x in own_nodes(gp) if isinstance(x, ast.Compare) and 'children[index].start_pos' in norm(x)]
-    ok = len(b) == 1 and norm(b[0]) == 'scope.children[index].start_pos >= node.start_pos'
-    chk.ob('C03.g', ok, gp, 'get_parent_scope: same comparison against the `:` child')
-    idx = [s for s in stmts_in(gp, ast.Assign) if norm(s.targets[0]) == 'index']
-    ok = len(idx) == 1 and norm(idx[0].value) == "scope.children.index(':')"
-    chk.ob('C03.g', ok, gp, 'get_parent_scope locates the first `:` child')
-    tests = [norm(n.test) for n in own_nodes(gp) if isinstance(n, ast.If)]
-    ok = "node.parent.type == 'param' and node.parent.name == node" in tests
-    chk.ob('C03.g', ok, gp, 'get_parent_scope exempts exactly the parameter\'s own name (param.name == node, which also covers *args/**kwargs)', str(tests))
-    ok = "node.parent.type == 'tfpdef' and node.parent.children[0] == node" in tests
-    chk.ob('C03.g', ok, gp, 'get_parent_scope exempts the name of an annotated parameter (tfpdef: NAME [":" test]) — listed difference to create_context')
+    def header_table(fn, subject, atoms, is_climb, want, what, key):
+        """the header rule of fn as a decision table: from the test of the scope kind (taken true) the run ends at the statement that
+        climbs to the enclosing scope exactly for the assignments of the atomic facts for which `want` says so"""
+        c = cfg_of(fn)
+        starts = [n for n in c.nodes if n.kind == 'test' and isinstance(n.ast, ast.Compare) and len(n.ast.ops) == 1
+                  and isinstance(n.ast.ops[0], ast.In) and xnorm(n.ast.left, fn) == subject + '.type'
+                  and isinstance(n.ast.comparators[0], (ast.Tuple, ast.List, ast.Set))
+                  and any(isinstance(e, ast.Constant) and e.value == 'funcdef' for e in n.ast.comparators[0].elts)]
+        if len(starts) != 1:
+            chk.ob('C03.g', False, fn, what, 'no single test of %s.type against the kinds of scope that have a header' % subject, key=key)
+            return
+        keys = []
+        for nm, text in atoms:
+            k, pol = atom_key(ast.parse(text, mode='eval').body, None)
+            keys.append((nm, k, pol))
+
+        def label(n):
+            if n.kind == 'stmt' and isinstance(n.ast, ast.Return):
+                return 'stay'
+            if n.kind == 'stmt' and is_climb(n.ast):
+                return 'climb'
+            return None
+        bad = []
+        for bits in itertools.product((False, True), repeat=len(keys)):
+            facts = dict(zip([k[0] for k in keys], bits))
+            env = {k: (v if pol else not v) for (nm, k, pol), v in zip(keys, bits)}
+            got = decide(fn, starts[0], lambda key_, n, env=env: True if n is starts[0] else env.get(key_), label, pure_methods=('index',))
+            if got != {want(facts)}:
+                bad.append('%s -> %s, expected %s' % (', '.join('%s=%d' % (k_, v_) for k_, v_ in facts.items()), sorted(got), want(facts)))
+        chk.ob('C03.g', not bad, starts[0].ast, what, '; '.join(bad[:3]), key=key)
+    header_table(pc, 'scope_node',
+                 [('before_colon', "node.start_pos < scope_node.children[scope_node.children.index(':')].start_pos"),
+                  ('in_param', "node.parent.type == 'param'"), ('is_its_name', 'node.parent.name == node')],
+                 lambda st: isinstance(st, ast.Assign) and norm(st.targets[0]) == 'scope_node' and call_name(st.value) == 'parent_scope',
+                 lambda f: 'climb' if f['before_colon'] and not (f['in_param'] and f['is_its_name']) else 'stay',
+                 'create_context: a node before the header\'s own `:` (first `:` child) belongs to the enclosing scope, except exactly the '
+                 'parameter\'s own name (decision table over 3 facts)', 'header-table|create_context')
+    header_table(gp, 'scope',
+                 [('before_colon', "scope.children[scope.children.index(':')].start_pos >= node.start_pos"),
+                  ('in_param', "node.parent.type == 'param'"), ('is_its_name', 'node.parent.name == node'),
+                  ('in_tfpdef', "node.parent.type == 'tfpdef'"), ('is_first', 'node.parent.children[0] == node')],
+                 lambda st: isinstance(st, ast.Assign) and norm(st) == 'scope = scope.parent',
+                 lambda f: 'climb' if f['before_colon'] and not (f['in_param'] and f['is_its_name']) and not (f['in_tfpdef'] and f['is_first']) else 'stay',
+                 'get_parent_scope: same comparison against the first `:` child; exempt are exactly the parameter\'s own name (param.name == node, '
+                 'which also covers *args/**kwargs) and the name of an annotated parameter (tfpdef: NAME [":" test]) - the listed difference '
+                 'to create_context (decision table over 5 facts)', 'header-table|get_parent_scope')
     def type_set(fn, subject):
         out = []
         for x in own_nodes(fn):
